@@ -127,6 +127,16 @@ func (w *World) verifyFunction(fn *ssa.Function, ct *Contract, tag string, safeA
 			fr.oblige("post", "", fmt.Sprintf("return%d#%d", r.idx, i), r.st, g, cl.Text, cl.Tags)
 		}
 	}
+	// net-effect frame of path-keyed ghost state (see frameGhostAt)
+	for _, rc := range e.restoreChecks {
+		var same []string
+		for _, r := range fr.rets {
+			same = append(same, implies(r.cond, eq(fmt.Sprintf("(select %s %s)", vc.cur(r.st, rc.key), rc.idx), fmt.Sprintf("(select %s %s)", vc.cur(fr.old, rc.key), rc.idx))))
+		}
+		goal := or(rc.listed, and(same...))
+		vc.obls = append(vc.obls, &Obligation{Name: fmt.Sprintf("%s#frame@%s", shortFn(fn), rc.anchor), Kind: "frame", Guard: rc.reach, Goal: goal, NFacts: len(vc.facts), AssumeIdx: -1, Pos: rc.pos, Expect: "unsat", Func: shortFn(fn),
+			Desc: "ghost state " + rc.key + " is modified at a key not listed in modifies and not restored before returning"})
+	}
 	// every "at <anchor> assert" clause must have matched a program point
 	if ct != nil {
 		for i, cl := range ct.Asserts {
@@ -197,6 +207,12 @@ func (fr *frame) declaredMods(m ModSpec, ctx *specCtx) []declMod {
 	case "ghost":
 		if g := fr.enc.db.Ghosts[m.Name]; g != nil {
 			return []declMod{{key: vc.keyGhost(g)}}
+		}
+	case "ghostwhere":
+		if g := fr.enc.db.Ghosts[m.Name]; g != nil && g.Key != nil {
+			if pred, err := ctx.regionPred(m, *g.Key); err == nil {
+				return []declMod{{key: vc.keyGhost(g), pred: pred}}
+			}
 		}
 	case "ghostat":
 		if g := fr.enc.db.Ghosts[m.Name]; g != nil {
